@@ -57,7 +57,43 @@ class BoomPipe(BrokenPipeError):
         return (BoomPipe, (self.tag,))
 
 
-BOOMS = {"Exception": Boom, "ValueError": BoomValue, "AssertionError": BoomAssert, "EOFError": BoomEOF, "TypeError": BoomType,
+class BoomTwoArgs(Exception):
+    """The usual hand-written exception: __init__ takes more than what it passes on to Exception.__init__, so pickle can dump it but
+    not rebuild it (cls(*self.args) -> TypeError) - in the parent process, when the worker's result is received."""
+
+    def __init__(self, tag, extra="e"):
+        super().__init__(f"boom:{tag}:")
+        self.tag = tag
+
+    def __reduce__(self):
+        return (BoomTwoArgs_rebuild_fails, (self.tag,))
+
+
+def BoomTwoArgs_rebuild_fails(tag):
+    raise TypeError("BoomTwoArgs.__init__() missing 1 required positional argument: 'extra'")
+
+
+class BoomLock(Exception):
+    """An exception that cannot be pickled at all (it carries a lock / handle)."""
+
+    def __init__(self, tag):
+        import threading
+        super().__init__(f"boom:{tag}:")
+        self.tag, self.handle = tag, threading.Lock()
+
+
+class BoomHuge(Exception):
+    """An exception whose message does not fit into a pipe buffer (e.g. it quotes the offending data)."""
+
+    def __init__(self, tag):
+        super().__init__(f"boom:{tag}:" + "x" * 200_000)
+        self.tag = tag
+
+    def __reduce__(self):
+        return (BoomHuge, (self.tag,))
+
+
+BOOMS = {"Unloadable": BoomTwoArgs, "Unpicklable": BoomLock, "Huge": BoomHuge, "Exception": Boom, "ValueError": BoomValue, "AssertionError": BoomAssert, "EOFError": BoomEOF, "TypeError": BoomType,
          "BrokenPipeError": BoomPipe, "StopIteration": BoomStop}
 
 
@@ -68,6 +104,8 @@ class HFilter:
     def __init__(self, outs, plain, fail, fail_after, log_lines, falsy=(), exc="Exception"):
         self.exc = exc
         self.falsy = set(falsy)       # items whose outputs are falsy values (0, "", (), False, 0.0)
+        self.none_item = None         # the position whose item is None in the input stream
+        self.none_out = set()         # items whose outputs are None (the value the queue protocol uses as its poison pill)
         self.outs = outs              # item -> number of outputs
         self.plain = plain            # items answered with a plain value instead of an iterator
         self.fail = fail              # items for which the filter raises
@@ -77,6 +115,8 @@ class HFilter:
 
     def filter(self, item):
         s = cur_sim()
+        if item is None:
+            item = self.none_item      # (the stream contained None at this position: a legal item)
         if item >= PRIOR:
             # an item of the EARLIER call on the same Multiprocessor instance (see "prior" in gen): one output, or the earlier call's failure
             s.yield_("filter-prior")
@@ -107,7 +147,7 @@ class HFilter:
             if item in self.fail and j >= self.fail_after.get(item, 0):
                 break
             s.yield_("filter-work")
-            yield out_value(item, j, item in self.falsy)
+            yield out_value(item, j, _kind(self.none_out, self.falsy, item))
         if item in self.fail:
             s.count("fault.filter_raise")
             raise BOOMS[self.exc](item)
@@ -118,7 +158,13 @@ PRIOR = 1000
 
 
 def out_value(item, j, falsy):
+    if falsy == "none":
+        return None
     return FALSY[(item + j) % len(FALSY)] if falsy else ("O", item, j)
+
+
+def _kind(cfg_or_filter_none, falsy, item):
+    return "none" if item in cfg_or_filter_none else item in falsy
 
 
 def expected_outputs(cfg):
@@ -129,7 +175,7 @@ def expected_outputs(cfg):
         if it in cfg["plain"]:
             exp.append(("P", it))
         else:
-            exp.extend(out_value(it, j, it in cfg.get("falsy", ())) for j in range(cfg["outs"][it]))
+            exp.extend(out_value(it, j, _kind(cfg.get("none_out", ()), cfg.get("falsy", ()), it)) for j in range(cfg["outs"][it]))
     return exp
 
 
@@ -137,12 +183,12 @@ def possible_outputs(cfg):
     pos = []
     for it in range(cfg["n_items"]):
         if it in cfg["fail"]:
-            pos.extend(out_value(it, j, it in cfg.get("falsy", ()))
+            pos.extend(out_value(it, j, _kind(cfg.get("none_out", ()), cfg.get("falsy", ()), it))
                        for j in range(min(cfg["outs"][it], cfg["fail_after"].get(str(it), 0))))
         elif it in cfg["plain"]:
             pos.append(("P", it))
         else:
-            pos.extend(out_value(it, j, it in cfg.get("falsy", ())) for j in range(cfg["outs"][it]))
+            pos.extend(out_value(it, j, _kind(cfg.get("none_out", ()), cfg.get("falsy", ()), it)) for j in range(cfg["outs"][it]))
     return pos
 
 
@@ -153,8 +199,11 @@ def _instrument():
     from sim.opcodes import instrument
     import coba.pipes.multiprocessing as M
     import coba.pipes.lines as L
-    return instrument([M.Multiprocessor.filter, M.Stopper.stop, M.Stopper.filter, L.ProcessLine.start, L.ProcessLine.join,
-                       L.ProcessLine._get_result, L.ThreadLine.start, L.ThreadLine.run, M.MyProcessLine.start, M.UniqueKey.__init__])
+    fns = [M.Multiprocessor.filter, M.Stopper.stop, M.Stopper.filter, L.ProcessLine.start, L.ProcessLine.join,
+           L.ProcessLine._get_result, L.ThreadLine.start, L.ThreadLine.run, M.MyProcessLine.start, M.UniqueKey.__init__]
+    if hasattr(L.ProcessLine, "_result_ready"):
+        fns.append(L.ProcessLine._result_ready)
+    return instrument(fns)
 
 
 def _sig(sim):
@@ -178,7 +227,7 @@ class C08:
             "a run is non-trivial when worker processes were started and the baton moved between tasks; "
             "distinct = distinct event-log digest (every primitive operation with task id + every scheduler choice)")
     assumptions = [
-        "outputs are picklable and never None (None is the protocol's poison pill)",
+        "outputs are picklable (an output that is None is generated: see the known finding none_output_ends_the_stream)",
         "multiprocessing primitives are modelled (sim/prims.py) after CPython 3.12 queues.py/process.py/connection.py",
         "threads of the parent process are pre-empted at primitive operations and at planned bytecodes (uniform, targeted and dense plans via "
         "sys.monitoring) of Multiprocessor.filter, its completion callbacks, Stopper, UniqueKey, MyProcessLine/ProcessLine/ThreadLine start/join code; "
@@ -218,6 +267,9 @@ class C08:
         outs = [weighted(rng, [(0, 1), (1, 4), (2, 2), (3, 1)]) for _ in range(n_items)]
         plain = [] if coba_mp else [i for i in range(n_items) if rng.random() < 0.15]
         falsy = [i for i in range(n_items) if i not in plain and rng.random() < 0.12]
+        # in 3 % of the fault-free runs one item's outputs are None - a legal value for a filter to yield, and the queue protocol's poison pill
+        none_out = [rng.randrange(n_items)] if (not faulty and n_items > 0 and rng.random() < 0.06) else []
+        none_out = [i for i in none_out if i not in plain and i not in falsy and outs[i] > 0]
         fail, fail_after, consumer = [], {}, {"mode": "all"}
         if faulty and n_items > 0:
             kind = weighted(rng, [("raise", 5), ("abandon", 3), ("both", 1)])
@@ -242,11 +294,12 @@ class C08:
         return {
             "prior": prior,
             "n_items": n_items, "n_procs": n_procs, "mtpc": mtpc, "read_wait": rng.random() < 0.3 and not coba_mp,
-            "coba_mp": coba_mp, "outs": outs, "plain": plain, "falsy": falsy, "fail": fail, "fail_after": fail_after,
+            "coba_mp": coba_mp, "outs": outs, "plain": plain, "falsy": falsy, "none_out": none_out, "none_item": weighted(rng, [(0, 2), (rng.randrange(n_items), 1)]) if n_items > 0 and rng.random() < 0.05 else None,
+            "fail": fail, "fail_after": fail_after,
             "consumer": consumer, "items_as": weighted(rng, [("list", 3), ("iter", 1)]),
             # the type of the error the user's filter raises (an assert in user code is an AssertionError ...)
             "exc": weighted(rng, [("Exception", 4), ("ValueError", 2), ("AssertionError", 2), ("EOFError", 1), ("TypeError", 1), ("BrokenPipeError", 1),
-                                  ("StopIteration", 0 if coba_mp else 1.5)]),
+                                  ("StopIteration", 0 if coba_mp else 1.5), ("Unloadable", 1.5), ("Unpicklable", 1.5), ("Huge", 1.5)]),
             "knobs": {"feeder_delay": rng.random() < 0.5, "pipe_cap": weighted(rng, [(None, 4), (1, 1), (3, 1)]),
                       "p_stay": weighted(rng, [(0.0, 2), (0.5, 2), (0.9, 1)]),
                       "slow_main": rng.random() < 0.25, "log_lines": coba_mp and rng.random() < 0.7,
@@ -286,12 +339,16 @@ class C08:
         quiet_context(log_sink)
         fail_after = {int(k): v for k, v in cfg["fail_after"].items()}
         f = HFilter(cfg["outs"], set(cfg["plain"]), set(cfg["fail"]), fail_after, kn["log_lines"], cfg.get("falsy", ()), cfg.get("exc", "Exception"))
+        f.none_out = set(cfg.get("none_out", ()))
+        f.none_item = cfg.get("none_item")
         got, obs = [], {}
 
         def main():
             if kn["slow_main"]:
                 sim.main.slow = True
             items = list(range(cfg["n_items"]))
+            if cfg.get("none_item") is not None:
+                items[cfg["none_item"]] = None
             if cfg["items_as"] == "iter":
                 items = iter(items)
             if cfg["coba_mp"]:
@@ -384,6 +441,7 @@ class C08:
             if "close_exc" in obs:
                 return vio("close_raised", f"closing the output early raised {obs['close_exc']!r}")
             if exc is not None and not (isinstance(exc, tuple(BOOMS.values())) and exc.tag in cfg["fail"]) \
+                    and not (cfg.get("exc") in ("Unloadable", "Unpicklable") and any(f"boom:{t}:" in str(exc) for t in cfg["fail"])) \
                     and not (cfg.get("exc") == "StopIteration" and isinstance(exc, RuntimeError)):
                 return vio("unexpected_exception", f"abandoning raised {exc!r}")
             return None
@@ -394,6 +452,8 @@ class C08:
                                               f"with {len(got)} outputs", key=f"error_swallowed:{cfg.get('exc', 'Exception')}")
             if cfg.get("exc") == "StopIteration" and isinstance(exc, RuntimeError) and "StopIteration" in str(exc):
                 return None       # Python itself reports a StopIteration that escapes into a generator as this RuntimeError
+            if cfg.get("exc") in ("Unloadable", "Unpicklable") and any(f"boom:{t}:" in str(exc) for t in cfg["fail"]):
+                return None       # an error that cannot travel between processes may arrive as a stand-in that carries its text
             if not (isinstance(exc, BOOMS[cfg.get("exc", "Exception")]) and exc.tag in cfg["fail"]):
                 return vio("wrong_exception", f"expected {cfg.get('exc', 'Exception')} for one of {cfg['fail']}, got {exc!r}")
             return None
@@ -401,6 +461,9 @@ class C08:
             return vio("unexpected_exception", f"no failure injected but the call raised {exc!r}")
         if gotc != exp:
             missing = list((exp - gotc).elements())
+            if cfg.get("none_out"):
+                return vio("lost_output", f"the filter yields None for item {cfg['none_out']}; outputs never delivered: {missing[:6]} (got {len(got)} of "
+                                          f"{sum(exp.values())})", key="none_output_ends_the_stream")
             return vio("lost_output", f"outputs never delivered: {missing[:6]} (got {len(got)} of {sum(exp.values())})")
         return None
 
@@ -418,6 +481,9 @@ class C08:
                 ren = lambda i: i if i < drop else i - 1
                 c["plain"] = [ren(i) for i in cfg["plain"] if i != drop]
                 c["falsy"] = [ren(i) for i in cfg.get("falsy", ()) if i != drop]
+                c["none_out"] = [ren(i) for i in cfg.get("none_out", ()) if i != drop]
+                if cfg.get("none_item") is not None:
+                    c["none_item"] = None if cfg["none_item"] == drop else ren(cfg["none_item"])
                 c["fail"] = [ren(i) for i in cfg["fail"] if i != drop]
                 c["fail_after"] = {str(ren(int(k))): v for k, v in cfg["fail_after"].items() if int(k) != drop}
                 if c["consumer"]["mode"] == "abandon":
@@ -459,6 +525,10 @@ class C08:
             c = copy.deepcopy(cfg); c["plain"] = []; yield c
         if cfg.get("falsy"):
             c = copy.deepcopy(cfg); c["falsy"] = []; yield c
+        if cfg.get("none_out"):
+            c = copy.deepcopy(cfg); c["none_out"] = []; yield c
+        if cfg.get("none_item") is not None:
+            c = copy.deepcopy(cfg); c["none_item"] = None; yield c
         if cfg["consumer"]["mode"] == "abandon" and cfg["consumer"]["k"] > 0:
             c = copy.deepcopy(cfg); c["consumer"]["k"] -= 1; yield c
         if len(cfg["fail"]) > 1:
